@@ -295,6 +295,15 @@ def _prepTgForSaving(
         newTierList = []
         for tier in tg["tiers"]:
             if tier["class"] == POINT_TIER:
+                for entry in tier["entries"]:
+                    if float(entry[0]) < float(minTimestamp):
+                        raise errors.ParsingError(
+                            "The entries are shorter than the min time specified in the textgrid."
+                        )
+                    if float(entry[0]) > float(maxTimestamp):
+                        raise errors.ParsingError(
+                            "The entries are longer than the max time specified in the textgrid."
+                        )
                 newTierList.append(tier)
                 continue
 
